@@ -107,7 +107,15 @@ class _ProxyStdout:
         self.data = b
         self.pos = 0
 
+    def _fill(self):
+        # jedi reads a reply: the complete next reply object is pulled from the real pipe now
+        # (lazily, so that messages the code under test does not wait an answer for - whatever
+        # the protocol in the tree is - do not block the proxy)
+        if self.pos >= len(self.data) and not self.closed:
+            self.feed(self.gen.pull_reply())
+
     def read(self, n=-1):
+        self._fill()
         if n is None or n < 0:
             n = len(self.data) - self.pos
         b = self.data[self.pos:self.pos + n]
@@ -115,6 +123,7 @@ class _ProxyStdout:
         return b
 
     def readline(self):
+        self._fill()
         i = self.data.find(b'\n', self.pos)
         end = len(self.data) if i < 0 else i + 1
         b = self.data[self.pos:end]
@@ -146,6 +155,8 @@ class Generation:
         self.death_req = None
         self.requests = 0
         self.table = set()          # model of Listener._inference_states keys
+        self.read_fault = None      # (phase, fault, rec, k) to apply when jedi reads the next reply
+        self.eof = False            # the reply stream has ended (helper dead): reads return b''
 
     # Popen interface used by jedi
     def kill(self):
@@ -181,14 +192,23 @@ class Generation:
         except ChildProcessError:
             pass
 
-    def _real_roundtrip(self, data):
-        """write one request to the real helper, return the complete raw reply
-        (b'' / a prefix if the helper died)."""
+    def _real_send(self, data):
         try:
             self.real.stdin.write(data)
             self.real.stdin.flush()
         except BrokenPipeError:
+            return False
+        return True
+
+    def _real_roundtrip(self, data):
+        """write one request to the real helper, return the complete raw reply
+        (b'' / a prefix if the helper died)."""
+        if not self._real_send(data):
             return None
+        return self._real_reply()
+
+    def _real_reply(self):
+        """the complete next raw reply of the real helper (b'' / a prefix if it died)"""
         tee = _Tee(self.real.stdout)
         try:
             from jedi._compatibility import Unpickler
@@ -288,14 +308,25 @@ class Generation:
                 raise
             # the write "succeeded" into a pipe nobody reads (cannot happen
             # once the child is dead and reaped by nobody: read end is closed)
-            self.stdout.feed(b'')
+            self.eof = True
             return
 
-        reply = self._real_roundtrip(data)
-        if reply is None:
+        if not self._real_send(data):
             rec['epipe'] = True
             raise BrokenPipeError(32, 'Broken pipe')
+        if phase in ('kill_after_send', 'flood_then_die', 'truncate_reply', 'die_by_exception'):
+            # the death happens while jedi waits for the reply to THIS message
+            self.read_fault = (phase, fault, rec, k)
 
+    def pull_reply(self):
+        """jedi reads from the helper's stdout and the previous reply is used up"""
+        if self.eof or self.dead:
+            return b''
+        reply = self._real_reply()
+        rf, self.read_fault = self.read_fault, None
+        if rf is None:
+            return reply
+        phase, fault, rec, k = rf
         if phase in ('kill_after_send', 'flood_then_die'):
             self.sim_kill()
             reply = b''
@@ -315,8 +346,8 @@ class Generation:
             self._await_death()
             self.dead = True
             self.death_req = k
-            reply = reply  # whatever it wrote before dying (normally nothing)
-        self.stdout.feed(reply)
+        self.eof = True
+        return reply
 
     def raw_eval(self, expr):
         """side channel: evaluate an expression inside the helper; not numbered,
